@@ -6,7 +6,7 @@ import PySMT.Proofs.C11Pol
 `convert` answers a set of clauses of literals (atom or negated atom), or one of the degenerate sets
 `{{True}}`, `{{False}}`, `{{}}`.  Needed about the simplifier: it maps an atom (or a constant) to a
 literal or a constant (`SimpShape`) — true of `Simplifier` except when an atom folds to a
-non-atomic Boolean formula (see finding F37 in `known_findings.d/C11.json`).
+non-atomic Boolean formula (see finding F51 in `known_findings.d/C11.json`).
 -/
 namespace PySMT.CNF
 
